@@ -20,9 +20,11 @@ Two obligations per shape:
                       scalar code (`d.encode()` fed to the hash, `k + d*c'` and its encoding) is compared with
                       reference drivers that apply the same library operations to the stub outputs and to the
                       16 challenge bytes (ring semantics of those operations: C05).
-  *.sign_then_verify  the real `PublicKey::verify` IR is run on the *terms* the signer produced (sig, pk_enc, name,
-                      data), with set_decode32 := success (encode() is canonical: C05), the double multiplication
-                      stubbed, and encode(R') := the signer's R_enc.  Then: s is decoded from sig[16..48], the
+  *.sign_then_verify  the real `PublicKey::verify` IR is run on the *terms* the signer produced (sig[0..16], pk_enc,
+                      name, data); the 32 s-bytes are abstracted to fresh bytes assumed canonical (the signer's
+                      s.encode() is canonical: C05 - the verifier sees them only through the canonicity test and the
+                      scalar it hands to the stubbed double multiplication), and encode(R') := the signer's R_enc.
+                      Then: every path that stops early needs a non-canonical s, s is decode32(sig[16..48]), the
                       multiplier is the little-endian integer of sig[0..16] (the bytes from which the signer
                       built c'), the hashed point is the result of the double multiplication, and the verdict is
                       `true` - i.e. the verifier's challenge input is byte-identical to the signer's.
@@ -95,6 +97,9 @@ def drivers(shapes):
         host = "src/%s.rs" % curve
         ds.append(Driver("drv_%s_sg_scenc" % curve, [("a", "in", 8, 4), ("out", "out", 1, 32)],
                          "        let x: Scalar = unsafe { transmute::<[u64; 4], Scalar>(*a) };\n        *out = x.encode();", host))
+        ds.append(Driver("drv_%s_sg_sdec32" % curve, [("buf", "in", 1, 32), ("out", "out", 8, 4), ("st", "out", 4, 1)],
+                         "        let (s, ok) = Scalar::decode32(&buf[..]);\n"
+                         "        *out = unsafe { transmute::<Scalar, [u64; 4]>(s) }; st[0] = ok;", host))
         if curve == "gls254":
             cexpr = ("        let c0 = u64::from_le_bytes(*<&[u8; 8]>::try_from(&cb[..8]).unwrap());\n"
                      "        let c1 = u64::from_le_bytes(*<&[u8; 8]>::try_from(&cb[8..]).unwrap());\n"
@@ -326,7 +331,9 @@ def check_sign(built, shape, timeout):
     red = [c for t, c in rec.calls if t == "reduce"]
     mg = [c for t, c in rec.calls if t == "mulgen"]
     enc = [c for t, c in rec.calls if t == "enc"]
-    problems = []
+    problems = []       # R = mulgen(k), published challenge bytes, response scalar: the composition depends on these
+    kproblems = []      # derivation of k: any k gives an acceptable signature
+    fproblems = []      # content of the challenge hash input: the composition run compares signer and verifier itself
     renc = None
     if len(red) != 1 or len(mg) != 1 or len(enc) != 1:
         problems.append("unexpected call structure: %d reductions, %d mulgen, %d point encodings" % (len(red), len(mg), len(enc)))
@@ -347,9 +354,9 @@ def check_sign(built, shape, timeout):
             kd, pb, q = match_chain(kcalls, kin, "per-signature secret hash", min(timeout, 20))
             nq += q
             if pb:
-                problems.append(pb + " [documented: encode(d) || pk || le64(|seed|) || seed || tag || data]")
+                kproblems.append(pb + " [documented: encode(d) || pk || le64(|seed|) || seed || tag || data]")
             elif len(red[0]["bytes"]) != 32 or not glue.same_terms(red[0]["bytes"], kd):
-                problems.append("k is not reduce(the 32-byte digest of the per-signature secret hash)")
+                kproblems.append("k is not reduce(the 32-byte digest of the per-signature secret hash)")
             # (2) R = mulgen(k), and it is R that is encoded into the challenge
             if not glue.same_terms(mg[0]["scalar"], red[0]["scalar"]):
                 problems.append("R is not mulgen(k) for the reduced hash k")
@@ -360,26 +367,36 @@ def check_sign(built, shape, timeout):
             cd, pb, q = match_chain(ccalls, cin, "challenge hash", min(timeout, 20))
             nq += q
             if pb:
-                problems.append(pb + " [specified: encode(R) || pk || tag || data]")
+                fproblems.append(pb + " [specified: encode(R) || pk || tag || data]")
+            elif not glue.same_terms(cd[:16], b2s_uf_spec(cin)[:16]):
+                fproblems.append("challenge digest differs from the verifier-side spec function b2s_uf_spec")
+            if not ccalls:
+                problems.append("no challenge hash is computed after encode(R)")
             else:
-                if not glue.same_terms(cd[:16], b2s_uf_spec(cin)[:16]):
-                    problems.append("challenge digest differs from the verifier-side spec function b2s_uf_spec")
-                if not glue.same_terms(list(sig[0:16]), cd[:16]):
+                # whatever was hashed: the 16 bytes the signer publishes and multiplies by are the head of that digest
+                cda = _digest(ccalls[-1])
+                if not glue.same_terms(list(sig[0:16]), cda[:16]):
                     problems.append("sig[0..16] is not the first 16 bytes of the challenge digest")
                 # (4) response scalar: the real inlined arithmetic against the reference driver on the stub outputs
                 _, _, sr = sym_run(built, "drv_%s_sg_sref" % curve,
-                                   concrete={"k": red[0]["scalar"], "d": list(sec), "cb": cd[:16]})
-                v, q = _equal(list(sig[16:48]), sr["out"], 8, min(timeout, 30))
+                                   concrete={"k": red[0]["scalar"], "d": list(sec), "cb": cda[:16]})
+                v, q = _equal(list(sig[16:48]), sr["out"], 8, min(timeout, 20))
                 nq += q
                 if v != "unsat":
                     problems.append("sig[16..48] is not encode(k + d*c') with c' the documented integer of the 16 challenge bytes (solver: %s)" % v)
     res = []
-    if problems:
-        res.append(_confirm(ob, built, shape, problems, time.time() - t0, nq))
+    if problems or kproblems or fproblems:
+        res.append(_confirm(ob, built, shape, kproblems + fproblems + problems, time.time() - t0, nq))
     else:
-        res.append(ob.ok("symbolic execution with contract stubs; hash chains / wiring / scalar arithmetic by term identity%s"
-                         % ("; z3-bv x%d" % nq if nq else ""), time.time() - t0, max(nq, 1), syntactic=(nq == 0)))
-    res.append(check_compose(ob2, built, shape, ins, sig, renc, timeout))
+        res.append(ob.ok("symbolic execution with contract stubs; hash chains and wiring by term identity; response scalar %s"
+                         % ("equal to the reference driver's by z3-bv x%d" % nq if nq else "term-identical to the reference driver's"),
+                         time.time() - t0, max(nq, 1), syntactic=(nq == 0)))
+    if problems:
+        # R = mulgen(k) / sig[0..16] / s = k + d*c' not established: the premise R' = R of the composition has no support
+        res.append(_confirm_rt(ob2, built, shape, ["signing-side equations not established (%s): the premise R' = R is unsupported"
+                                                   % "; ".join(problems)[:200]], time.time() - t0, nq))
+    else:
+        res.append(check_compose(ob2, built, shape, ins, sig, renc, timeout))
     return res
 
 
@@ -387,10 +404,11 @@ def check_compose(ob, built, shape, ins, sig, renc, timeout):
     curve, variant, seedlen, namelen, datalen = shape
     t0 = time.time()
     nq = 0
-    if renc is None:
-        # the signer's structure was not recognised: use what the signer did encode, if anything
-        return _confirm_rt(ob, built, shape, ["signer call structure not recognised; composition not posed symbolically"], time.time() - t0, nq)
     pke, nm, data = ins["pke"], ins.get("name", []), ins["data"]
+    # the verifier sees sig[16..48] only through the canonicity test and the decoded scalar handed to the (stubbed)
+    # double multiplication: the signer's 32 s-bytes are abstracted to fresh bytes constrained to be canonical
+    sfresh = [T.var("s_enc%d" % i, 8) for i in range(32)]
+    vsig = list(sig[0:16]) + sfresh
     work, paths = [[]], []
     while work and len(paths) < 16:
         dec = work.pop()
@@ -422,7 +440,7 @@ def check_compose(ob, built, shape, ins, sig, renc, timeout):
         def setup(ex, rec=rec):
             install_verify(ex, rec, curve, renc)
             ex.branch_policy = policy
-        conc = {"pke": list(pke), "sig": list(sig), "data": list(data)}
+        conc = {"pke": list(pke), "sig": list(vsig), "data": list(data)}
         if namelen:
             conc["name"] = list(nm)
         try:
@@ -437,6 +455,7 @@ def check_compose(ob, built, shape, ins, sig, renc, timeout):
     if work:
         return ob.unknown("path budget exhausted in the verifier run")
     problems = []
+    reached = False
     for p in paths:
         if p.outcome == "panic":
             st, _ = _feasible(p.conds, timeout)
@@ -448,39 +467,53 @@ def check_compose(ob, built, shape, ins, sig, renc, timeout):
         sd = [x for t, x in c if t == "sdec"]
         mm = [x for t, x in c if t == "mulmul"]
         en = [x for t, x in c if t == "enc"]
-        if len(sd) != 1 or not glue.same_terms(sd[0]["bytes"], list(sig[16:48])):
-            problems.append("the verifier does not decode s from the signer's sig[16..48]")
+        st = p.outs["st"][0]
+        em = BVEmitter()
+        pc = ["(= %s %s)" % (em.ref(cc, 1), "#b1" if v_ else "#b0") for cc, v_ in p.conds]
+        Sint = em.ref(sfresh[0], 8)
+        for b in sfresh[1:]:
+            Sint = "(concat %s %s)" % (em.ref(b, 8), Sint)
+        canon = "(bvult %s %s)" % (Sint, bvc(RORD[curve], 256))
+        if not mm:
+            # a path that stops before the point computation must be excluded by the premise (s canonical)
+            v, _, _ = run_solver(em.script(pc + [canon], get_model=False), "z3", timeout)
+            nq += 1
+            if v != "unsat":
+                problems.append("the verifier rejects a 48-byte signature with canonical s before the point computation (solver: %s)" % v)
             continue
-        if len(mm) != 1:
-            problems.append("the verifier does not reach the double multiplication on a signer-made signature")
-            continue
+        reached = True
+        if sd:
+            if len(sd) != 1 or not glue.same_terms(sd[0]["bytes"], sfresh):
+                problems.append("the verifier does not decode s from sig[16..48]")
+                continue
+            s_scalar = sd[0]["scalar"]
+        else:
+            _, _, so = sym_run(built, "drv_%s_sg_sdec32" % curve, concrete={"buf": sfresh})
+            s_scalar = so["out"]
+        v, q = _equal(mm[0]["v"], s_scalar, 64, timeout)
+        nq += q
+        if v != "unsat":
+            problems.append("the verifier's generator multiplier is not Scalar::decode32(sig[16..48]) (solver: %s)" % v)
         v, q = _equal(mm[0]["u"], le_words(list(sig[0:16])), 64, timeout)
         nq += q
         if v != "unsat":
             problems.append("the verifier's multiplier is not the little-endian integer of the signer's sig[0..16] (solver: %s)" % v)
-        if not glue.same_terms(mm[0]["v"], sd[0]["scalar"]):
-            problems.append("the verifier's generator multiplier is not the decoded s")
         pvars = set(x.aux[0] for x in T.variables([w for w in mm[0]["P"] if isinstance(w, T.Term)]))
         kvars = set(x.aux[0] for x in T.variables([w for w in p.ins["pt"] if isinstance(w, T.Term)]))
         if not pvars or not pvars <= kvars:
             problems.append("the point operand of the double multiplication is not derived from the key point alone")
-        if len(en) != 1 or not glue.same_terms(en[0]["P"], mm[0]["res"]):
+        if len(mm) != 1 or len(en) != 1 or not glue.same_terms(en[0]["P"], mm[0]["res"]):
             problems.append("the point hashed by the verifier is not the result of the double multiplication")
             continue
-        st = p.outs["st"][0]
-        if isinstance(st, T.Term) or p.conds:
-            em = BVEmitter()
-            pc = ["(= %s %s)" % (em.ref(cc, 1), "#b1" if v_ else "#b0") for cc, v_ in p.conds]
-            v, _, _ = run_solver(em.script(pc + ["(distinct %s %s)" % (em.ref(st, 32) if isinstance(st, T.Term) else bvc(st, 32), bvc(1, 32))],
+        if isinstance(st, T.Term) or st != 1:
+            v, _, _ = run_solver(em.script(pc + [canon, "(distinct %s %s)" % (em.ref(st, 32) if isinstance(st, T.Term) else bvc(st, 32), bvc(1, 32))],
                                            get_model=False), "z3", timeout)
             nq += 1
             if v != "unsat":
                 problems.append("with R' encoded as the signer's R, the verifier's verdict is not `true` (solver: %s): "
                                 "its challenge input differs from the signer's" % v)
-        elif st != 1:
-            problems.append("with R' encoded as the signer's R, the verifier returns false: its challenge input differs from the signer's")
-    if not any(p.outcome == "ret" for p in paths):
-        problems.append("no returning path in the verifier run (vacuous)")
+    if not reached:
+        problems.append("no verifier path reaches the point computation (vacuous)")
     if problems:
         return _confirm_rt(ob, built, shape, problems, time.time() - t0, nq)
     return ob.ok("real verifier IR run on the signer's symbolic output (contract stubs, %d path%s); term identity%s"
